@@ -127,6 +127,109 @@ PROPS["C14"] = eval_prop("C14", ["proofs/AnchorsSitesRecover.v"], ["C14"],
     "error names a rule whose condition fails on that cycle's facts; an action failure names the executing rule, is last, and keeps the completed prefix. "
     "Harness: faulty rule stream (missing facts, nil, ranges, kinds, division by zero, panicking methods).")
 
+# ---- C12 (binary store/load) -- begin ----
+CODEC_FILES = ["gen/CodecGen.v", "proofs/AnchorsCodec.v", "proofs/CodecProofs.v"]
+CODEC_TRUST = COMMON_TRUST + [
+    "hand-written model of the catalog stream coq/model/CodecPrim.v, Codec.v (byte-level readers/writers, 13 meta records, catalog frame, "
+    "Write-call sequence, library map with the overwrite flag) and of BuildKnowledgeBase read as trees coq/model/Catalog.v; tied to the source by "
+    "the extracted tag constants / version string / field orders (CodecGen.v, AnchorsCodec.v) and by decoding real streams inside Coq on every run",
+]
+PROPS["C12"] = dict(
+    proof_files=CODEC_FILES + ["proofs/CatalogProofs.v", "props/C12.v"],
+    props_files=["props/C12.v"],
+    harness="C12", corr_files=["model/CorrCodec.v"],
+    theorems=["C12_roundtrip", "C12_truncation", "C12_writer_fault", "C12_no_overwrite", "C12_kb_roundtrip"],
+    trusted=CODEC_TRUST,
+    assumptions=[
+        "a Go map is written in its iteration order: the model keeps every map as an association list in stream order, the theorems hold for every order",
+        "wf_catalog: all lengths and counts < 2^64, int fields inside int64 (true of every catalog MakeCatalog builds)",
+        "the reader delivers the bytes it has (bytes.Reader / file semantics); a reader returning short reads without error (D19, ConstantMeta uses reader.Read) is outside the model",
+        "behavioural equivalence of instances is obtained from equality of the whole catalog (every node meta, both snapshot maps, the invalidation index); "
+        "BuildKnowledgeBase is modelled as Catalog.kb_of_catalog (graph read as trees the way the evaluator reads it) and compared with the implementation on every run; "
+        "kb_of_catalog (catalog_of_kb rs) = Ok rs is proved for a catalog_of_kb without node sharing and without working-memory maps (the real MakeCatalog shares equal "
+        "sub-expressions; its output is what the correspondence decodes and unfolds)",
+        "removed rules (Deleted flag not stored, D8) are outside the generated region and replayed as a known finding",
+    ],
+    explanation="Round trip decode(encode c) = Ok c for every well-formed catalog and every map order, error on every strict prefix, store error for every failing "
+                "Write call, and the overwrite=false / failed-load library invariants are proved over the executable stream model; the streams written by the real "
+                "StoreKnowledgeBaseToWriter for generated knowledge bases are decoded by the model inside Coq (re-encoding reproduces the bytes, unfolded rules equal "
+                "the rules built, working-memory maps and invalidation index as IndexVariables computes them, Write-call count), and the implementation is checked "
+                "directly: load(store) and load(store(load(store))) equal in metadata, snapshots, working memory and instance behaviour; every truncation offset of "
+                "small streams and all field boundaries of large ones fail to load; every / sampled failing Write index; overwrite semantics.",
+)
+# ---- C12 -- end ----
+
+# ---- C20, binary knowledge-base stream only -- begin ----
+PROPS["C20"] = dict(
+    proof_files=CODEC_FILES + ["props/C20.v"],
+    props_files=["props/C20.v"],
+    harness="C20BIN", corr_files=["model/CorrCodec.v"],
+    theorems=["C20_binary_refuted", "C20_binary_partial"],
+    trusted=CODEC_TRUST + ["mirror decoder of the harness (tools/harness/c20bin.go walkStream), which defines the known-finding region and is compared with "
+                           "Catalog.ReadCatalogFromReader (acceptance) and with the model (acceptance, requested bytes) on every generated input"],
+    assumptions=[
+        "binary stream loader only; GRL text, JSON rule text and JSON fact text are not covered by this check",
+        "memory = bytes requested on behalf of length prefixes (model) and TotalAlloc delta (implementation); resident memory, time and the Go runtime are not modelled",
+        "termination of the modelled decoder is by construction (total Coq function); the implementation is run under a 5 s timeout",
+    ],
+    explanation="The allocation clause is refuted for the binary loader (length prefixes are trusted: no linear bound, 19-byte witnesses) and proved for every stream that "
+                "decodes (at most 3x its length); generated byte strings (random, structure-aware mutants of valid streams) are loaded by the real loader in a child "
+                "process under ulimit -v with a timeout (outcome class, TotalAlloc) and decoded by the model (acceptance, requested bytes).",
+)
+# ---- C20 -- end ----
+
+# ---- C17 / C18: GRL acceptance and the JSON translator (parser model) ----
+PARSER_TRUST = COMMON_TRUST + [
+    "lexer / parser / builder model coq/model/Lexer.v, Parser.v (hand-written from antlr/grulev3.g4, the listener and RuleBuilder.go; "
+    "that ANTLR's generated parser accepts the same language and builds the same trees is the correspondence, not a theorem)",
+]
+PARSER_FILES = ["model/Lexer.v", "model/Parser.v", "model/GrlPrint.v", "model/CorrParse.v", "proofs/FloatLit.v", "proofs/LexProofs.v", "proofs/ParserProofs.v"]
+PROPS["C17"] = dict(
+    proof_files=PARSER_FILES + ["proofs/C17Proof.v", "props/C17.v"],
+    props_files=["props/C17.v"],
+    harness="C17",
+    theorems=["C17_roundtrip_partial", "C17_roundtrip_spacing_partial", "C17_expr_roundtrip", "C17_accept", "C17_reject", "C17_string_literal"],
+    trusted=PARSER_TRUST,
+    assumptions=[
+        "ASCII input (bytes >= 128 outside string literals are outside the modelled domain and never generated)",
+        "C17_roundtrip_partial / C17_roundtrip_spacing_partial: print_rules is one canonical spelling of the tokens (lower-case keywords, decimal integers, exact hexadecimal "
+        "floats, double-quoted strings) with arbitrary white space; keyword case, comments and the other literal notations (octal / hex integers, decimal floats incl. correct "
+        "rounding, single quotes) are covered by the correspondence only; the converse (every accepted text is the spelling of a well-formed tree) is not proved",
+        "third clause of the property (a rejected text does not damage what was loaded): true of the builder model by construction, "
+        "refuted on the implementation (known findings KF-C17-D10a, KF-C17-D10b); the harness keeps checking everything outside those two regions",
+    ],
+    explanation="The lexer/parser/builder model is proved to invert the printer on every well-formed rule list of any size (C17_roundtrip_partial, C17_expr_roundtrip), "
+                "to accept exactly the grammatical texts with new names and to store every rule as declared (C17_accept), to answer Err - never Panic - otherwise with the "
+                "knowledge base unchanged, and to reject empty conditions / action lists, out-of-range saliences, duplicate names, illegal characters and reserved words "
+                "(C17_reject); string escapes round-trip for every byte string (C17_string_literal). Generated valid documents (typed and purely syntactic, all lexical "
+                "varieties) and single-edit mutants are loaded with the real builder; verdict and the snapshot of every stored rule are compared with the model parser "
+                "(vm_compute), and direct oracles check error reporting, by-construction rejects, stored metadata and the survival of earlier rules.",
+)
+
+PROPS["C18"] = dict(
+    proof_files=PARSER_FILES + ["model/JsonRule.v", "model/CorrJson.v", "proofs/JsonProofs.v", "proofs/JsonParse.v", "proofs/C18Proof.v", "props/C18.v"],
+    props_files=["props/C18.v"],
+    harness="C18",
+    theorems=["C18_partial", "C18_refuted_description", "C18_refuted_not", "C18_refuted_arity", "C18_malformed", "C18_string"],
+    trusted=PARSER_TRUST + [
+        "translator model coq/model/JsonRule.v (hand-written from pkg/JsonResource.go; its output is compared byte for byte with ParseJSONRule on every generated case)",
+        "from-scratch evaluator coq/model/Fresh.v and the harness fact library twin Methods.v (shared with C01/C05)",
+    ],
+    assumptions=[
+        "ASCII input; JSON numbers in the model are integers below 2^53 in magnitude (fmt.Sprint / FormatFloat print their digits); other numbers are exercised on the implementation only",
+        "C18_partial holds under wf_trule: plain-string operands are the canonical text of a well-formed atom, plain-string actions end in ';', no join operator with a single operand "
+        "(finding D14), no 'not' with several operands one of which is an operator object (D13), and/or nested at most 1000 deep, salience within 32 bits; the description is equal "
+        "modulo the escaping the listener does not undo (D12). The unrestricted statement is refuted in Coq by the three witnesses (C18_refuted_*)",
+        "encoding/json is outside the model: the harness hands the decoded JSON value to the model",
+    ],
+    explanation="For every well-formed typed JSON rule of any size and nesting the model translator's text is proved to be accepted by the parser model and to denote exactly the expected rule "
+                "(name, salience, escaped description, action list), whose condition has, on every fact state and for every method table, the value of the JSON operator tree with operands "
+                "grouped as nested (brackets are transparent, one-operand 'not' is negation) - C18_partial; string constants round-trip for every byte string (C18_string); missing name/when/"
+                "then, unknown operators, empty or multi-key objects and wrong set/call/compound arity are rejected (C18_malformed); the unrestricted statement is refuted by vm_compute "
+                "witnesses for D12, D13, D14. Generated typed trees (all 15 operators, set/call/obj/const, plain operands, depth <= 4) go through pkg.ParseJSONRule, a JSON resource, the "
+                "real builder and FetchMatchingRules on two fact states; text, stored rule and verdicts are compared with the model and with an independent Go tree walker.",
+)
+
 NOT_APPLICABLE = {}
 
 def _eng_text(what):
@@ -151,6 +254,26 @@ def _eval_text(what):
     )
 
 MANIFEST_TEXT = {
+    "C18": dict(
+        text="Machine-checked proof (Coq 8.16.1) over a function-by-function model of pkg/JsonResource.go: for every well-formed typed JSON rule, of any size and nesting, the "
+             "translated text is accepted by the parser model and denotes the rule with the same name, salience, action list and a condition whose from-scratch value equals that "
+             "of the JSON operator tree grouped as nested; string constants round-trip for every byte string; malformed rules are rejected. Tied to the code by comparing the "
+             "translator text byte for byte, the stored rule and FetchMatchingRules verdicts on generated trees, plus an independent Go tree walker.",
+        note="Trust: Coq kernel; hand-written translator / parser / evaluator models (validated by correspondence, not verified against Go); encoding/json; harness. Partial: the "
+             "unrestricted statement is refuted in Coq (description escaping D12, mixed 'not' D13, one-operand operators D14 - open known findings, plus D15 found by the harness); "
+             "the theorem holds under the decidable side condition wf_trule. ASCII; integer JSON numbers. No axioms (closed under the global context).",
+        technique="Rocq/Coq proof over an executable translator + parser model (induction over JSON trees, all sizes) + differential correspondence (vm_compute) + independent tree walker",
+    ),
+    "C17": dict(
+        text="Machine-checked proof (Coq 8.16.1) over an executable lexer / parser / builder model of the GRL grammar: the parser inverts the printer on every "
+             "well-formed rule list of any size and nesting depth (precedence, postfix chains, literals, string escapes), accepts exactly the grammatical texts "
+             "with new names, stores every rule as declared and answers an error (never a panic) otherwise. Tied to the code by loading generated documents and "
+             "single-edit mutants with the real builder and comparing verdict and the snapshot of every stored rule with the model, plus direct oracles.",
+        note="Trust: Coq kernel; hand-written model of grulev3.g4 + listener + RuleBuilder (that ANTLR accepts the same language is correspondence, not proof); "
+             "harness. Partial: non-canonical spellings (keyword case, comments, other literal notations incl. rounding of decimal floats) are covered by correspondence only; the converse of the round trip is not proved; ASCII only. "
+             "The rollback clause is refuted on the implementation (open known findings KF-C17-D10a/b). No axioms (closed under the global context).",
+        technique="Rocq/Coq proof over an executable parser model (round trip by induction, all sizes) + mutant-based differential correspondence (vm_compute)",
+    ),
     "C01": _eval_text("every execution is of an active rule whose condition, evaluated from scratch on the facts of that moment, is true (from any memory contents)."),
     "C02": _eval_text("each active rule whose from-scratch condition is true is a candidate of its cycle; at a quiescent exit no active rule's condition holds on the final facts."),
     "C04": _eval_text("actions run in textual order on the facts left by the previous one; an assignment stores exactly the computed (converted) value at exactly the addressed path, all diverging paths unchanged."),
@@ -164,6 +287,21 @@ MANIFEST_TEXT = {
     "C10": _eng_text("a retracted name is neither evaluated nor fired again in the call, all other active rules keep being evaluated, Complete ends the run after the whole action list."),
     "C11": _eng_text("FetchMatchingRules returns exactly the non-removed rules whose condition is true, once each, in non-increasing salience order, and cannot execute an action."),
     "C15": _eng_text("no action list starts once a ctx.Err() check has seen the cancellation, a pre-cancelled context fires nothing, nil is never returned when a check saw the cancellation."),
+    # ---- C12 -- begin ----
+    "C12": dict(
+        text="Machine-checked proof (Coq 8.16.1) over an executable model of the binary knowledge-base stream (byte-level primitives, the 13 meta records, "
+             "the catalog frame with its working-memory maps, the sequence of Write calls, the library map): decoding an encoded catalog returns exactly that "
+             "catalog for every well-formed catalog and every map iteration order (also after a second store/load), every strict prefix of a stream is a load "
+             "error that leaves the library unchanged, a writer failing at any Write call makes the store fail and leaves no loadable stream, and overwrite=false "
+             "never touches an existing entry. Tied to the code by constants and field orders extracted from ast/Serializer.go on every run and by decoding "
+             "the streams written by the real StoreKnowledgeBaseToWriter inside Coq; the implementation is also checked directly (metadata, snapshots, working "
+             "memory, instance behaviour after one and two store/load generations, every truncation offset, every failing Write index, overwrite flag).",
+        note="Trust: Coq kernel; hand-written stream model (validated against real streams on every run, not verified against Go); translator; harness. "
+             "Instance behaviour is derived from equality of the complete catalog, not from a proof about BuildKnowledgeBase. Known finding: a rule removed "
+             "before the store is active again after loading (Deleted flag not stored). No axioms (closed under the global context).",
+        technique="Rocq/Coq proof over an executable codec model + source-extracted constants/field orders + byte-level correspondence (vm_compute) + implementation oracles",
+    ),
+    # ---- C12 -- end ----
     "C19": dict(
         text="Machine-checked proof (Coq 8.16.1) that the six comparison functions, as regenerated from pkg/reflectmath.go on every run, "
              "are mutually consistent (trichotomy, <=/>=/!= derived, mirrored under swap) and depend on denoted values only, for all "
